@@ -79,7 +79,7 @@ def scan_assumptions(lines):
     found = []
     for i, l in enumerate(lines):
         m = ASSUME_PAT.search(l.text)
-        if m and not l.text.strip().startswith("//"):
+        if m and not l.text.strip().startswith("//") and "// split: proved in" not in l.text:
             o = l.origin
             where = f"{o[1]}:{o[2]}" if o[0] in ("repo", "spec") else f"generated:{o[1]}"
             found.append(f"{m.group(1).strip(' (')} @ {where}: {l.text.strip()[:160]}")
